@@ -6,6 +6,7 @@ import groups_scan
 import groups_static
 import groups_comp
 import groups_parsehead
+import groups_parsetail
 
 
 def all_groups():
@@ -17,6 +18,7 @@ def all_groups():
     gs += groups_scan.groups()
     gs += groups_comp.groups()
     gs += groups_parsehead.groups()
+    gs += groups_parsetail.groups()
     # C18 (sequential half): the frame obligations of EVERY function under contract - see framework.attributed
     for g in gs:
         if 'C18' not in g.props and not g.name.endswith('_layout'):
